@@ -924,6 +924,21 @@ def call_numpy(it, f, args, kwargs, node):
     if f in ("ones", "zeros"):
         shape = shape_from_args([args[0]])
         return it.fresh(T.ONE if f == "ones" else T.ZERO, shape, "ndarray", node)
+    if f in ("flip", "flipud", "fliplr") and args and isinstance(args[0], VTens) and args[0].rank is not None:
+        # np.flip(x, axis) is x[..., ::-1, ...]: expressed as that index so that both spellings have one normal form
+        from .ops import index_tensor
+
+        x = args[0]
+        ax = kwargs.get("axis", args[1] if len(args) > 1 else None)
+        okx, axv = const_of(ax) if ax is not None else (True, None)
+        if f == "flipud":
+            okx, axv = True, 0
+        if f == "fliplr":
+            okx, axv = True, 1
+        if okx and (axv is None or isinstance(axv, int)):
+            axes = list(range(x.rank)) if axv is None else [axv % x.rank]
+            items = [VSlice(VConst(None), VConst(None), VConst(-1)) if k in axes else VSlice(VConst(None), VConst(None), VConst(None)) for k in range(x.rank)]
+            return index_tensor(it, x, items, node)
     if f == "flatnonzero" and len(args) == 1:
         r = call_numpy(it, "where", args, {}, node)
         return r.items[0] if isinstance(r, VTuple) else r
@@ -1324,6 +1339,19 @@ def call_builtin(it, f, args, kwargs, node):
             for e in items:
                 acc = binop(it, "Add", acc, e, node)
             return acc
+        g = args[0]
+        el = getattr(g, "elem", None)
+        if isinstance(g, VUnknown) and g.tag == "genexp" and el is not None and len(args) == 1:
+            # sum(<generator expression over an iteration the analyser summarises>): the same accumulation a loop `acc += elem` gives
+            et = el.term if isinstance(el, VTens) else num_term(el)
+            if et is not None:
+                cnt = getattr(g, "comp_iter", None)
+                t = T.P(T.App("accum", (getattr(g, "comp_site", it.site(node)), cnt, et, et)))
+                if isinstance(el, VTens):
+                    r = it.fresh(t, el.shape, el.kind, node)
+                    r.obj.fw = el.obj.float_width()
+                    return r
+                return VNum(el.kind if isinstance(el, VNum) else "float", t)
         return VUnknown("sum", "unknown")
     if f == "round":
         x = args[0]
@@ -1501,7 +1529,9 @@ def dict_method(it, dv, name, args, kwargs, node):
             return VIter(list(d.items.values()))
         return VUnknown("values(%s)" % d.origin, "iter", d.origin)
     if name == "get":
-        ok, k = const_of(args[0])
+        from .values import dict_key
+
+        ok, k = dict_key(args[0])
         dflt = args[1] if len(args) > 1 else VConst(None)
         if d.items is not None and ok:
             if k in d.items:
@@ -1524,7 +1554,29 @@ def dict_method(it, dv, name, args, kwargs, node):
                 d.items.update(src.obj.items)
                 d.extra_unknown = d.extra_unknown or src.obj.extra_unknown
             elif src is not None:
-                d.extra_unknown = True
+                # an iterable of (key, value) pairs
+                from .values import dict_key
+
+                pairs = it.concrete_items(src) if isinstance(src, (VList, VTuple, VIter)) else None
+                done = False
+                if pairs is not None and d.items is not None:
+                    kv = []
+                    for pr in pairs:
+                        two = it.concrete_items(pr) if isinstance(pr, (VTuple, VList)) else None
+                        if two is None or len(two) != 2:
+                            kv = None
+                            break
+                        okk, kk = dict_key(two[0])
+                        if not okk:
+                            kv = None
+                            break
+                        kv.append((kk, two[1]))
+                    if kv is not None:
+                        for kk, vv in kv:
+                            d.items[kk] = vv
+                        done = True
+                if not done:
+                    d.extra_unknown = True
             star = kwargs.get("**")
             for k, v in kwargs.items():
                 if k != "**" and d.items is not None:
